@@ -601,3 +601,46 @@ def engineio_url(scheme_in, netloc, query, engineio_path, transport):
         scheme = scheme + 's'
     return scheme + '://' + netloc + '/' + engineio_path.strip('/') + '/?' + query + \
         ('&' if query else '') + 'transport=' + transport + '&EIO=4'
+
+
+# --- C03: the WebSocket writer ---------------------------------------------------------------------
+
+def out_frames(log, n0):
+    """Number of frames appended to the log since position n0 (the writer only writes)."""
+    return len(log) - n0
+
+
+def sent_frames_match(log, old_log, taken, old_taken):
+    """The frames written since the start are, one for one and in order, the packets taken since
+    the start - except that a failed send may leave the tail of the last batch unsent."""
+    n = len(log) - len(old_log)
+    m = len(taken) - len(old_taken)
+    return grows(log, old_log) and grows(taken, old_taken) and n <= m and \
+        forall(lambda k: frame_out(log[len(old_log) + k]) and
+               frame_data(log[len(old_log) + k]) ==
+               wire(taken[len(old_taken) + k].packet_type, taken[len(old_taken) + k].data, False),
+               0, n)
+
+
+def batch_frames_match(log, old_log, taken, old_taken, batch, j):
+    """While a batch of `batch` packets (the last ones taken) is being written: all earlier
+    packets and the first j of the batch have been written."""
+    n = len(log) - len(old_log)
+    m = len(taken) - len(old_taken)
+    return grows(log, old_log) and grows(taken, old_taken) and n == m - batch + j and \
+        forall(lambda k: frame_out(log[len(old_log) + k]) and
+               frame_data(log[len(old_log) + k]) ==
+               wire(taken[len(old_taken) + k].packet_type, taken[len(old_taken) + k].data, False),
+               0, n)
+
+
+def served_under(root, extra, filename):
+    """C20: the file served for a request is the mapped root followed by the rest of the request
+    path (one '/' is dropped when the root ends with one and the rest starts with one); what
+    follows (an index file name) only extends it."""
+    return filename.startswith(root + extra) or \
+        (root.endswith('/') and extra.startswith('/') and filename.startswith(root + extra[1:]))
+
+
+def served_from(static_files, key, extra, filename):
+    return key in static_files and served_under(static_files[key], extra, filename)
